@@ -6,6 +6,7 @@ package main
 // parent as the outcome of the case; the seed in the case description replays it.  Public API only.
 
 import (
+	"github.com/fsnotify/fsnotify"
 	"bytes"
 	"encoding/json"
 	"flag"
@@ -76,6 +77,9 @@ func c12Scenarios(r *hx.R, tier string) []c12Scenario {
 		for i := 0; i < 30; i++ {
 			add("first", "default-cache", 300, 4+r.Intn(13))
 		}
+		for i := 0; i < 12; i++ {
+			add("errq", "watcher-report-behind-configure", 300, 1)
+		}
 		for i := 0; i < 4; i++ {
 			add("soak", "mixed", 15000, 6+r.Intn(4))
 			add("soak", "reconf", 15000, 5+r.Intn(4))
@@ -88,6 +92,9 @@ func c12Scenarios(r *hx.R, tier string) []c12Scenario {
 	} else {
 		for i := 0; i < 5; i++ {
 			add("first", "default-cache", 300, 8+r.Intn(9))
+		}
+		for i := 0; i < 3; i++ {
+			add("errq", "watcher-report-behind-configure", 300, 1)
 		}
 		add("soak", "mixed", 4000, 6+r.Intn(3))
 		add("soak", "reconf", 4000, 5+r.Intn(3))
@@ -465,6 +472,8 @@ func c12Child(args []string) int {
 			res, code = c12Snap(st, *profile, *seed, time.Duration(*dur)*time.Millisecond, *workers, *stall)
 		case "first":
 			res, code = c12First(st, *seed, *workers, *stall)
+		case "errq":
+			res, code = c12ErrQueued(st, *seed, *stall)
 		default:
 			res, code = c12Soak(st, *profile, *seed, time.Duration(*dur)*time.Millisecond, *workers, *stall)
 		}
@@ -555,6 +564,80 @@ func c12First(st *c12State, seed int64, workers int, stall int) (c12Result, int)
 		return c12Result{Note: "hung"}, c12ExitStall
 	}
 	_ = cdi.Configure(cdi.WithAutoRefresh(false))
+	return c12Result{}, 0
+}
+
+// c12ErrQueued: a report of the watcher (an event queue overflow) is taken by the watcher goroutine while a Configure is
+// already queued for the cache lock: the harness holds the lock, starts Configure (first in the queue), makes the watcher
+// report the error through the verif hook (the goroutine takes it and queues second), and releases the lock.  Configure
+// replaces the watcher; the old goroutine then finds itself replaced.  Afterwards every operation must still return (nobody
+// may be left holding the lock) and the cache must answer like a fresh one.
+func c12ErrQueued(st *c12State, seed int64, stall int) (c12Result, int) {
+	d0, d1 := filepath.Join(st.root, "specs", "d0"), filepath.Join(st.root, "specs", "d1")
+	_ = os.MkdirAll(d0, 0o755)
+	_ = os.MkdirAll(d1, 0o755)
+	var tmpN atomic.Int64
+	stage := filepath.Join(st.root, "stage")
+	_ = os.MkdirAll(stage, 0o755)
+	_ = c12Put(stage, filepath.Join(d0, "base.json"), c12Spec("vendor0.com", "class", "base", []string{"dev0"}, ""), &tmpN)
+	_ = c12Put(stage, filepath.Join(d1, "more.json"), c12Spec("vendor1.com", "class", "more", []string{"dev1"}, ""), &tmpN)
+	cache, err := cdi.NewCache(cdi.WithSpecDirs(d0), cdi.WithAutoRefresh(true))
+	if err != nil || cache == nil {
+		return c12Result{}, c12ExitCrash
+	}
+	variants := seed % 3
+	errs := cdi.VerifWatchErrors(cache)
+	cache.Lock()
+	configured := make(chan struct{})
+	go func() {
+		defer close(configured)
+		switch variants {
+		case 0:
+			_ = cache.Configure(cdi.WithSpecDirs(d0, d1))
+		case 1:
+			_ = cache.Configure(cdi.WithAutoRefresh(true))
+		default:
+			_ = cache.Configure(cdi.WithAutoRefresh(false))
+		}
+	}()
+	time.Sleep(30 * time.Millisecond) // Configure is waiting for the lock
+	injected := false
+	if errs != nil {
+		select {
+		case errs <- fsnotify.ErrEventOverflow:
+			injected = true
+		case <-time.After(2 * time.Second):
+		}
+	}
+	time.Sleep(30 * time.Millisecond) // the watcher goroutine has taken the report and waits for the lock, behind Configure
+	cache.Unlock()
+	st.count("Configure with a watcher report queued behind it")
+	wait := func(what string, ch chan struct{}) bool {
+		select {
+		case <-ch:
+			return true
+		case <-time.After(time.Duration(stall) * time.Second / 2):
+			fmt.Fprintf(os.Stderr, "C12 WATCHDOG: %s did not return (a goroutine was left holding the cache lock). injected=%v\n", what, injected)
+			return false
+		}
+	}
+	if !wait("Configure", configured) {
+		return c12Result{Note: "hung"}, c12ExitStall
+	}
+	for i := 0; i < 3; i++ {
+		done := make(chan struct{})
+		go func() {
+			defer close(done)
+			st.guarded("ListDevices", func() { _ = cache.ListDevices() })
+			st.guarded("Refresh", func() { _ = cache.Refresh() })
+			st.guarded("GetErrors", func() { _ = cache.GetErrors() })
+		}()
+		if !wait("a query after the reconfiguration", done) {
+			return c12Result{Note: "hung"}, c12ExitStall
+		}
+		time.Sleep(10 * time.Millisecond)
+	}
+	_ = cache.Configure(cdi.WithAutoRefresh(false))
 	return c12Result{}, 0
 }
 
